@@ -42,7 +42,7 @@ func init() {
 		{"ServeHTTP", handlerKernel(h, "AppHandler.ServeHTTP", "serveHTTP",
 			"(methodBad isGet formBad handlerErr : Bool) (statusCode_ : Int)", "Int × Bool",
 			"let sent_ := (0 : Int)\n  let called_ := false\n  ", "(sent_, called_)",
-			Spec{Kind: "i64", Lazy: true, Ret: "stateonly", StateVars: []string{"sent_", "called_"}, Ignore: ign, Status: st,
+			Spec{Kind: "i64", Lazy: true, Inline: true, Ret: "stateonly", StateVars: []string{"sent_", "called_"}, Ignore: ign, Status: st,
 				IgnoreLHS:  []string{"statusCode", "label0", "label1", "startTime", "logCtx", "err"},
 				InputCalls: []string{"context.WithDeadline"},
 				ErrCalls:   map[string]string{"a.Handler": "handlerErr|called_ := true"},
@@ -98,12 +98,12 @@ func init() {
 					"marshalGetEntriesResponse": "leafDecodeFails", "json.Marshal": "marshalFails", "w.Write": "writeFails"},
 				Bind: map[string]string{"rpcGetLeavesByRange": "rsp"},
 				InitCond:  map[string]string{rootInit: "rootBad"},
-				RangeCond: map[string]string{"rsp.Leaves": "misindexed", "cond:rsp.Leaves": "leaf.LeafIndex != start+int64(i)"},
+				RangeCond: map[string]string{"rsp.Leaves": "misindexed", "elem:rsp.Leaves": "leaf", "cond:rsp.Leaves": "leaf.LeafIndex != start+int64(i)"},
 				Repl:      common(map[string]string{"len(rsp.Leaves)": "nLeaves"})})},
 		{"rpcGetLeavesByRange", handlerKernel(h, "rpcGetLeavesByRange", "rpcGetLeavesByRange", "(rpcFails : Bool) (mapped : Nat) (fixFails : Bool)", "Option Nat", "", "none",
-			Spec{Kind: "i64", Lazy: true, Ret: "statuserr", StatusIdx: 1, Ignore: ign, Status: st,
+			Spec{Kind: "i64", Lazy: true, Inline: true, Ret: "statuserr", StatusIdx: 1, Ignore: ign, Status: st,
 				ErrCalls:  map[string]string{"li.rpcClient.GetLeavesByRange": "rpcFails"},
-				RangeCond: map[string]string{"rsp.Leaves": "fixFails", "cond:rsp.Leaves": "err := li.issuanceChainService.FixLogLeaf(ctx, leaf) ; err != nil"},
+				RangeCond: map[string]string{"rsp.Leaves": "fixFails", "elem:rsp.Leaves": "leaf", "cond:rsp.Leaves": "err := li.issuanceChainService.FixLogLeaf(ctx, leaf) ; err != nil"},
 				Repl:      common(nil)})},
 		{"getEntryAndProof", handlerKernel(h, "getEntryAndProof", "getEntryAndProof",
 			"(parseFails : Bool) (leafIndex_ treeSize_ : Int) (rpcErr : Bool) (rpcStatus : Nat) (rootBad : Bool) (rootSize : Int) (leafNil : Bool) (leafValLen : Int) (proofNil : Bool) (nHashes : Int) (marshalFails writeFails : Bool)",
@@ -117,34 +117,34 @@ func init() {
 				Repl: common(map[string]string{"rsp.Leaf == nil": "leafNil", "len(rsp.Leaf.LeafValue)": "leafValLen", "rsp.Proof == nil": "proofNil",
 					"len(rsp.Proof.Hashes)": "nHashes"})})},
 		{"rpcGetEntryAndProof", handlerKernel(h, "rpcGetEntryAndProof", "rpcGetEntryAndProof", "(rpcFails : Bool) (mapped : Nat) (fixFails : Bool)", "Option Nat", "", "none",
-			Spec{Kind: "i64", Lazy: true, Ret: "statuserr", StatusIdx: 1, Ignore: ign, Status: st,
+			Spec{Kind: "i64", Lazy: true, Inline: true, Ret: "statuserr", StatusIdx: 1, Ignore: ign, Status: st,
 				ErrCalls: map[string]string{"li.rpcClient.GetEntryAndProof": "rpcFails"},
 				InitCond: map[string]string{"err := li.issuanceChainService.FixLogLeaf(ctx, rsp.Leaf) ; err != nil": "fixFails"},
 				Repl:     common(nil)})},
 		{"logInfo.getSTH", handlerKernel(h, "logInfo.getSTH", "logInfoGetSTH", "(getterFails : Bool)", "ErrKind", "", "ErrKind.ok",
-			Spec{Kind: "i64", Lazy: true, Ret: "errkind", Ignore: ign, IgnoreLHS: []string{"logID"}, ErrCalls: map[string]string{"li.sthGetter.GetSTH": "getterFails"}})},
+			Spec{Kind: "i64", Lazy: true, Inline: true, Ret: "errkind", Ignore: ign, IgnoreLHS: []string{"logID"}, ErrCalls: map[string]string{"li.sthGetter.GetSTH": "getterFails"}})},
 		{"LogSTHGetter.GetSTH", handlerKernel(sthgo, "LogSTHGetter.GetSTH", "logSTHGetterGetSTH", "(rootFails signFails : Bool) (sigLen : Int)", "ErrKind", "", "ErrKind.ok",
-			Spec{Kind: "i64", Lazy: true, Ret: "errkind", Ignore: append([]string{"copy"}, ign...), IgnoreLHS: []string{"sth"},
+			Spec{Kind: "i64", Lazy: true, Inline: true, Ret: "errkind", Ignore: append([]string{"copy"}, ign...), IgnoreLHS: []string{"sth"},
 				ErrCalls: map[string]string{"getSignedLogRoot": "rootFails", "signV1TreeHead": "signFails"},
 				Repl:     map[string]string{"err != nil": "signFails", "len(sth.TreeHeadSignature.Signature)": "sigLen"}})},
 		{"ParseBodyAsJSONChain", handlerKernel(h, "ParseBodyAsJSONChain", "parseBodyAsJSONChain", "(readFails jsonBad : Bool) (chainLen : Int)", "ErrKind", "", "ErrKind.ok",
-			Spec{Kind: "i64", Lazy: true, Ret: "errkind", Ignore: ign, IgnoreLHS: []string{"req"},
+			Spec{Kind: "i64", Lazy: true, Inline: true, Ret: "errkind", Ignore: ign, IgnoreLHS: []string{"req"},
 				ErrCalls: map[string]string{"io.ReadAll": "readFails"},
 				InitCond: map[string]string{"err := json.Unmarshal(body, &req) ; err != nil": "jsonBad"},
 				Repl:     map[string]string{"len(req.Chain)": "chainLen"}})},
 		{"verifyAddChain", handlerKernel(h, "verifyAddChain", "verifyAddChain", "(validateFails precertTestFails isPrecert_ expectingPrecert_ : Bool)", "ErrKind", "", "ErrKind.ok",
-			Spec{Kind: "i64", Lazy: true, Ret: "errkind", Ignore: ign,
+			Spec{Kind: "i64", Lazy: true, Inline: true, Ret: "errkind", Ignore: ign,
 				ErrCalls: map[string]string{"ValidateChain": "validateFails", "IsPrecertificate": "precertTestFails"}})},
 		{"checkAuditPath", handlerKernel(h, "checkAuditPath", "checkAuditPath", "(someWrongSize : Bool)", "Bool", "", "true",
 			Spec{Kind: "i64", Ignore: ign, RangeCond: map[string]string{"path": "someWrongSize", "cond:path": "len(node) != sha256.Size"}})},
 		{"marshalGetEntriesResponse", handlerKernel(h, "marshalGetEntriesResponse", "marshalGetEntriesResponse", "", "ErrKind", "", "ErrKind.ok",
-			Spec{Kind: "i64", Lazy: true, Ret: "errkind", Ignore: ign, IgnoreLHS: []string{"jsonRsp", "jsonRsp.Entries", "extraData", "treeLeaf"}})},
+			Spec{Kind: "i64", Lazy: true, Inline: true, Ret: "errkind", Ignore: ign, IgnoreLHS: []string{"jsonRsp", "jsonRsp.Entries", "extraData", "treeLeaf"}})},
 		{"MirrorSTHGetter.GetSTH", handlerKernel(sthgo, "MirrorSTHGetter.GetSTH", "mirrorSTHGetterGetSTH", "(rootFails storeFails : Bool)", "ErrKind", "", "ErrKind.ok",
-			Spec{Kind: "i64", Lazy: true, Ret: "errkind", Ignore: ign,
+			Spec{Kind: "i64", Lazy: true, Inline: true, Ret: "errkind", Ignore: ign,
 				ErrCalls: map[string]string{"getSignedLogRoot": "rootFails", "sg.st.GetMirrorSTH": "storeFails"}})},
 		{"getSignedLogRoot", handlerKernel(sthgo, "getSignedLogRoot", "getSignedLogRoot", "(quotaSet quotaBadType rpcFails slrNil rootBad : Bool) (hashLen : Int)", "ErrKind × Bool",
 			"let rpc_ := false\n  ", "(ErrKind.ok, rpc_)",
-			Spec{Kind: "i64", Lazy: true, Ret: "errkind", StateVars: []string{"rpc_"}, Ignore: ign, IgnoreLHS: []string{"req", "req.ChargeTo", "quotaUser", "ok", "slr", "currentRoot"},
+			Spec{Kind: "i64", Lazy: true, Inline: true, Ret: "errkind", StateVars: []string{"rpc_"}, Ignore: ign, IgnoreLHS: []string{"req", "req.ChargeTo", "quotaUser", "ok", "slr", "currentRoot"},
 				ErrCalls: map[string]string{"client.GetLatestSignedLogRoot": "rpcFails|rpc_ := true"},
 				TypeSwitch: map[string]map[string]string{"ctx.Value(remoteQuotaCtxKey)": {"nil": "(!quotaSet)", "string": "(quotaSet && !quotaBadType)"}},
 				InitCond: map[string]string{"q := ctx.Value(remoteQuotaCtxKey) ; q != nil": "quotaSet", "err := currentRoot.UnmarshalBinary(slr.GetLogRoot()) ; err != nil": "rootBad"},
